@@ -41,7 +41,16 @@ def _logical(schema, node):
 
 def _res(s, ns, defs):
     if isinstance(s, list):
-        return {"k": "union", "branches": [_res(b, ns, defs) for b in s]}
+        if any(isinstance(b, list) for b in s):
+            raise RefSchemaError("a union may not immediately contain another union")
+        branches = [_res(b, ns, defs) for b in s]
+        kinds = []
+        for b in branches:
+            d = b if b["k"] != "ref" else defs[b["name"]]
+            kinds.append(("named", d["name"]) if d["k"] in ("record", "enum", "fixed") else d["k"])
+        if len(set(kinds)) != len(kinds):
+            raise RefSchemaError("a union may not contain two schemas of the same type (named types: of the same name)")
+        return {"k": "union", "branches": branches}
     if isinstance(s, str):
         if s in PRIMS:
             return {"k": s}
